@@ -589,6 +589,9 @@ func (client *client) connectWithTimeOut() (ok bool) {
 		select {
 		case p := <-client.in:
 			if p == nil {
+				// the read loop has ended (and has set the client's error) before the connection was established:
+				// there is no session, no queue and nothing to serve
+				err = io.ErrUnexpectedEOF
 				return
 			}
 			code := codes.Success
